@@ -10,8 +10,12 @@ pub fn string_error_optimization(source_unit: SourceUnit) -> HashSet<Loc> {
     //Create a new hashset that stores the location of each optimization target identified
     let mut optimization_locations: HashSet<Loc> = HashSet::new();
 
-    let solidity_version = utils::get_solidity_version_from_source_unit(source_unit.clone())
-        .expect("Could not extract Solidity version from source unit.");
+    //Without a readable `pragma solidity` version the version-gated pattern cannot apply
+    let solidity_version = match utils::get_solidity_version_from_source_unit(source_unit.clone())
+    {
+        Some(solidity_version) => solidity_version,
+        None => return optimization_locations,
+    };
 
     if solidity_version >= (0, 8, 4) {
         //Extract the target nodes from the source_unit
